@@ -2,6 +2,7 @@ package checks
 
 import (
 	"fmt"
+	"math/rand"
 	"sort"
 	"strings"
 	"sync"
@@ -27,6 +28,10 @@ import (
 // evaluated on the harness's own trees; after every operation the result datagram, all taps, the core event
 // sink and SubscriptionManager.Subscriptions(peer) of every peer are compared with it.
 //
+// Foreign device parts (both parts): a share of the requests carries, in the client and/or server address, the device
+// of somebody else (another connected peer, the local device, nobody). Whatever the stack answers: exactly one result,
+// the entries, ids and fan-out of every OTHER connection unchanged; for the sender's own entry see the assumptions.
+//
 // Concurrent part: peer goroutines subscribe/unsubscribe, API goroutines publish unique values; the recorded
 // history (call/return stamps from rig.Seq, outputs from the taps) is checked with porcupine against a
 // set + publish model per server feature.
@@ -38,13 +43,19 @@ func init() {
 		Rule: "sequential case = one World (5 local server features incl. NodeManagement, one of them in the sub-entity [1,1] with the type and feature number of the one in its parent [1]; 1 local client feature; 3 identically numbered peers; " +
 			"in every second case a peer without write handler, to which every send fails, is the first subscriber of every server feature) and a seeded history of 10-25 operations " +
 			"{subscribe (valid / duplicate / wrong role / wrong type / unknown entity / unknown feature, device part omitted in client and/or server address), unsubscribe (present / absent / another peer's pair / unknown), " +
+			"a fifth of the requests and a third of the deletes aimed at a pair that another peer holds with a FOREIGN device part in the client and/or server address (client address: the device of another connected peer - preferably the holder of the same-numbered pair -, of the mute peer, of the local device, or of nobody; " +
+			"server address: the device of a peer or of nobody), each followed by a SetData on the addressed server feature whose fan-out is judged, " +
 			"SetData, UpdateData, remote write (a quarter of them aimed at the feature with the same number in the parent / sub / sibling entity of a subscribed one), registry read}; non-trivial if it saw at least one grant, one rejection and one fan-out to >= 1 subscriber that was judged. " +
-			"concurrent case = 3 peer goroutines x 3-4 subscribe/unsubscribe calls and one publisher goroutine per server feature (1-3 of [1]/1, [1,1]/1, [2]/1; mute first subscriber in every second case), checked with porcupine; non-trivial if at least one publish reached a subscriber and the check returned Ok or Illegal. " +
+			"concurrent case = 3 peer goroutines x 3-4 subscribe/unsubscribe calls and one publisher goroutine per server feature (1-3 of [1]/1, [1,1]/1, [2]/1; mute first subscriber in every second case; in every third case two fifths of the calls carry a foreign device part, " +
+			"mostly the device of a fourth, identically numbered bystander peer that is subscribed to everything and silent during the concurrent phase: its entries and ids must be the same afterwards and every publish must reach it), checked with porcupine; non-trivial if at least one publish reached a subscriber and the check returned Ok or Illegal. " +
 			"distinct = hash of the operation shapes (kinds, features, outcomes) without payload values.",
 		Assumptions: []string{
 			"message handling and notification sending are synchronous, so the taps are complete when the call into the stack has returned",
 			"a request that omits the device part of an address, or whose feature lookup ignores it, is judged by the entity/feature part on the sender's (client) resp. the local (server) tree, as the statement's 'omitted device address' case says",
 			"a special-role client feature (the peer's own NodeManagement) is outside the statement: both outcomes are accepted, the reference follows the observed one",
+			"a request whose client (server) address names a device other than the sender (the local device): the statement does not say whether that device part is ignored - the stack's feature lookups ignore it - or makes the request invalid. " +
+				"If the entity/feature numbers, read on the sender's resp. the local tree, justify the request, both outcomes are accepted for the SENDER's own entry (result, event, registry and fan-out must agree with each other); if they do not, it must be refused; " +
+				"in no case may it add, remove or renumber an entry of another connection (pinned tree: requests are served by the numbers; a delete compares the client device literally and is refused; a foreign server device is ignored)",
 			"registry reads over the wire that stay unanswered are counted, not judged (that is C01's subject)",
 			"concurrent part: one publisher goroutine per server feature (two overlapping SetData calls on one function may legitimately both notify the later value)",
 			"'each remote feature currently subscribed' includes those whose entry follows that of a peer with a broken connection: the mute peer (SetupRemoteDevice with a nil writer) is not observed itself (no tap, not in the compared registries), only its effect on the others",
@@ -216,6 +227,149 @@ func (cw *c08World) compatibleClients(srv string) []string {
 		return []string{"c"}
 	case model.FeatureTypeTypeNodeManagement:
 		return []string{"e", "e", "e", "nm"}
+	}
+	return nil
+}
+
+// c08Foreign replaces the device part of the client and/or the server address of a registry request by a device
+// the address does not belong to. Client address: the device of another connected peer (peer `prefer` when
+// >= 0: the peer that holds the same-numbered pair), the local device, one of `extra` (the mute peer) or a device
+// nobody has. Server address: the device of a connected peer (the sender's own included) or a device nobody has.
+// dim names which address was changed, tag is its short form for reasons, desc renders the devices.
+func c08Foreign(r *rand.Rand, w *rig.World, pi, prefer int, extra []string, ca, sa *model.FeatureAddressType) (nca, nsa *model.FeatureAddressType, dim, tag, desc string) {
+	which := r.Intn(20)
+	nca, nsa = ca, sa
+	with := func(a *model.FeatureAddressType, dev string) *model.FeatureAddressType {
+		c := *a
+		c.Device = util.Ptr(model.AddressDeviceType(dev))
+		return &c
+	}
+	if which < 15 { // client address
+		dev, cls := "", ""
+		switch k := r.Intn(20); {
+		case k < 13:
+			q := (pi + 1 + r.Intn(len(w.Peers)-1)) % len(w.Peers)
+			if prefer >= 0 && prefer != pi && r.Intn(4) > 0 {
+				q = prefer
+			}
+			dev, cls = w.Peers[q].Addr, "peer"
+		case k < 15 && len(extra) > 0:
+			dev, cls = extra[r.Intn(len(extra))], "mute-peer"
+		case k < 17:
+			dev, cls = rig.LocalAddr, "local"
+		default:
+			dev, cls = "nowhere", "unknown"
+		}
+		nca = with(ca, dev)
+		dim, tag, desc = "foreign-client-device", "foreign-cdev", "cdev="+cls
+	}
+	if which >= 12 { // server address (12..14: both)
+		dev, cls := "nowhere", "unknown"
+		if r.Intn(4) > 0 {
+			q := r.Intn(len(w.Peers))
+			dev, cls = w.Peers[q].Addr, "peer"
+			if q == pi {
+				cls = "sender"
+			}
+		}
+		nsa = with(sa, dev)
+		if dim == "" {
+			dim, tag, desc = "foreign-server-device", "foreign-sdev", "sdev="+cls
+		} else {
+			dim, tag, desc = "foreign-client-and-server-device", "foreign-csdev", desc+",sdev="+cls
+		}
+	}
+	return
+}
+
+// c08CountForeign records what the stack did with a request that carried a foreign device part (calibration evidence).
+func c08CountForeign(c *rig.Ctx, what, ftag, fdesc string, justified, otherHolds, accepted bool) {
+	k := "foreign-device:" + what + ":" + ftag
+	if justified {
+		k += ":sender's-numbers-justify-it"
+	} else {
+		k += ":sender's-numbers-do-not-justify-it"
+	}
+	if otherHolds {
+		k += ":another-peer-holds-that-pair"
+	}
+	if accepted {
+		k += " -> accepted"
+	} else {
+		k += " -> refused"
+	}
+	c.Count(k, 1)
+	for _, d := range strings.Split(fdesc, ",") {
+		c.Count("foreign-device:"+strings.NewReplacer("cdev=", "client-address-names:", "sdev=", "server-address-names:").Replace(d), 1)
+	}
+	c.Count("foreign_device_requests_judged", 1)
+}
+
+// c08RegSnap renders the subscription entries (with their ids) of every connection but that of peer pi.
+func (cw *c08World) regSnapOthers(pi int) map[string]string {
+	snap := map[string]string{}
+	one := func(name string, p *rig.Peer) {
+		var es []string
+		for _, en := range cw.w.Local.SubscriptionManager().Subscriptions(p.RD) {
+			es = append(es, fmt.Sprintf("#%d %s>%s", en.Id, rkFeatKey(en.ClientFeature), rkFeatKey(en.ServerFeature)))
+		}
+		sort.Strings(es)
+		snap[name] = strings.Join(es, " ")
+	}
+	for qi, q := range cw.w.Peers {
+		if qi != pi {
+			one(fmt.Sprintf("peer %d", qi), q)
+		}
+	}
+	if cw.mute != nil {
+		one("the mute peer", cw.mute)
+	}
+	return snap
+}
+
+// c08SnapDiff names how the entries of other connections changed: "" if they did not.
+func c08SnapDiff(before, after map[string]string) (how, detail string) {
+	for _, k := range rkSortedKeys(before) {
+		b, a := before[k], after[k]
+		if a == b {
+			continue
+		}
+		nb, na := len(strings.Fields(b)), len(strings.Fields(a))
+		switch {
+		case na < nb:
+			how = "removes-entry-of-other-peer"
+		case na > nb:
+			how = "creates-entry-for-other-peer"
+		default:
+			how = "changes-entry-of-other-peer"
+		}
+		detail += fmt.Sprintf("%s: {%s} -> {%s}; ", k, b, a)
+	}
+	return
+}
+
+func rkSortedKeys(m map[string]string) []string {
+	var ks []string
+	for k := range m {
+		ks = append(ks, k)
+	}
+	sort.Strings(ks)
+	return ks
+}
+
+// otherHolder returns a peer other than pi that holds the subscription (cli, srv) in the reference (lowest index), or -1.
+func (cw *c08World) otherHolder(pi int, cli, srv string) int {
+	for q := range cw.w.Peers {
+		if _, ok := cw.subs[c08Entry{q, cli, srv}.key()]; ok && q != pi {
+			return q
+		}
+	}
+	return -1
+}
+
+func (cw *c08World) muteDevs() []string {
+	if cw.mute != nil {
+		return []string{cw.mute.Addr}
 	}
 	return nil
 }
@@ -444,6 +598,24 @@ func c08Seq(c *rig.Ctx) {
 		}
 	}
 
+	// after a request that carried a foreign device part: one data change on the addressed server feature, so that
+	// "the fan-out of everybody is as the reference says" is asserted right away and not only by a later step
+	probeFanout := func(what, srv string) {
+		l, ok := cw.locals[srv]
+		if !ok || len(l.Fns) == 0 || c.Failed() {
+			return
+		}
+		fn := l.Fns[0]
+		cw.val++
+		takeAll()
+		l.F.SetData(fn, rkPayload(fn, cw.val))
+		outs := takeAll()
+		log("   SetData %s %s %s (fan-out probe)", srv, fn, rkToken(cw.val))
+		judgeFanout(what+"/SetData-after", srv, fn, cw.val, true, outs)
+		w.Core.Take()
+		c.Count("foreign_device_fanout_probes", 1)
+	}
+
 	nOps := 10 + r.Intn(16)
 	pre := r.Intn(6) // the history opens with some valid requests so that data changes meet subscribers
 	for step := 0; step < nOps; step++ {
@@ -510,24 +682,53 @@ func c08Seq(c *rig.Ctx) {
 				}
 			}
 			ca, sa := cw.cliAddr(p, cli), cw.srvAddr(srv)
+			omitC, omitS := r.Intn(4) == 0, r.Intn(4) == 0
+			fdim, ftag, fdesc := "", "", ""
+			if r.Intn(5) == 0 { // a device part that names somebody else
+				ca, sa, fdim, ftag, fdesc = c08Foreign(r, w, pi, cw.otherHolder(pi, cli, srv), cw.muteDevs(), ca, sa)
+			}
 			omit := ""
-			if r.Intn(4) == 0 {
+			if omitC && !strings.Contains(fdim, "client") {
 				ca = rkStripDevice(ca)
 				omit += "-cdev"
 			}
-			if r.Intn(4) == 0 {
+			if omitS && !strings.Contains(fdim, "server") {
 				sa = rkStripDevice(sa)
 				omit += "-sdev"
 			}
 			verdict, reason := cw.expectGrant(pi, cli, srv, typ)
+			if fdim != "" {
+				// the statement does not say whether a foreign device part is ignored (the feature lookups ignore it) or makes
+				// the request invalid: a request that the entity/feature numbers justify may be granted (as the sender's own
+				// entry) or refused; one that they do not justify must be refused
+				if verdict == "grant" {
+					verdict = "either"
+				}
+				reason = ftag + ":" + reason
+			}
 			what := "subscribe"
-			log("#%d subscribe peer%d %s(%s) -> %s(%s) type=%s kind=%s%s expect=%s(%s)", step, pi, cli, rkKey(ca), srv, rkKey(sa), typ, kind, omit, verdict, reason)
+			log("#%d subscribe peer%d %s(%s) -> %s(%s) type=%s kind=%s%s %s expect=%s(%s)", step, pi, cli, rkKey(ca), srv, rkKey(sa), typ, kind, omit, fdesc, verdict, reason)
 			takeAll()
 			w.Core.Take()
+			var othersBefore map[string]string
+			if fdim != "" {
+				othersBefore = cw.regSnapOthers(pi)
+			}
 			mc := p.Subscribe(ca, sa, typ)
 			c.Events(1)
-			granted := judgeResult(what+"/"+reason, pi, mc, takeAll(), verdict)
+			outs := takeAll()
+			if fdim != "" {
+				if how, detail := c08SnapDiff(othersBefore, cw.regSnapOthers(pi)); how != "" {
+					ok, bad, _ := rkResultOf(outs[pi], mc)
+					fail(what+"/"+fdim+"/"+how, "a subscription request of peer %d (%s; answered with %d success and %d error results) changed the entries of another connection: %s", pi, fdesc, ok, bad, detail)
+					break // the narrow signature says it all
+				}
+			}
+			granted := judgeResult(what+"/"+reason, pi, mc, outs, verdict)
 			hist[len(hist)-1] += fmt.Sprintf(" -> granted=%v", granted)
+			if fdim != "" {
+				c08CountForeign(c, "subscribe", ftag, fdesc, verdict != "reject", false, granted)
+			}
 			if granted {
 				// follow the stack for the registry so that one deviation is reported once, not at every later step
 				if _, ok1 := cw.pfeat[cli]; ok1 {
@@ -548,7 +749,10 @@ func c08Seq(c *rig.Ctx) {
 			}
 			judgeEvents(what, api.ElementChangeAdd, granted, pi, cliKey, srvKey)
 			judgeRegistry(what + "/" + reason)
-			c.Count("subscribe:"+reason, 1)
+			if fdim != "" {
+				probeFanout(what+"/"+fdim, srv)
+			}
+			c.Count("subscribe:"+strings.TrimPrefix(reason, ftag+":"), 1)
 			if omit != "" {
 				c.Count("subscribe:device-omitted"+omit, 1)
 			}
@@ -590,12 +794,18 @@ func c08Seq(c *rig.Ctx) {
 				}
 			}
 			ca, sa := cw.cliAddr(p, cli), cw.srvAddr(srv)
+			omitC, omitS := r.Intn(3) == 0, r.Intn(3) == 0
+			fdim, ftag, fdesc := "", "", ""
+			oh := cw.otherHolder(pi, cli, srv)
+			if r.Intn(5) == 0 || (oh >= 0 && r.Intn(3) == 0) { // a device part that names somebody else, preferably the peer that holds this pair
+				ca, sa, fdim, ftag, fdesc = c08Foreign(r, w, pi, oh, cw.muteDevs(), ca, sa)
+			}
 			omit := ""
-			if r.Intn(3) == 0 {
+			if omitC && !strings.Contains(fdim, "client") {
 				ca = rkStripDevice(ca)
 				omit += "-cdev"
 			}
-			if r.Intn(3) == 0 {
+			if omitS && !strings.Contains(fdim, "server") {
 				sa = rkStripDevice(sa)
 				omit += "-sdev"
 			}
@@ -608,14 +818,37 @@ func c08Seq(c *rig.Ctx) {
 			if kind != "present" && !present {
 				reason = "absent:" + kind
 			}
+			if fdim != "" {
+				// see subscribe: the sender's own pair may or may not go; a pair the sender does not hold must be refused,
+				// whoever the device part names
+				if verdict == "grant" {
+					verdict = "either"
+				}
+				reason = ftag + ":" + reason
+			}
 			what := "unsubscribe"
-			log("#%d unsubscribe peer%d %s(%s) -> %s(%s) kind=%s%s expect=%s", step, pi, cli, rkKey(ca), srv, rkKey(sa), kind, omit, verdict)
+			log("#%d unsubscribe peer%d %s(%s) -> %s(%s) kind=%s%s %s expect=%s", step, pi, cli, rkKey(ca), srv, rkKey(sa), kind, omit, fdesc, verdict)
 			takeAll()
 			w.Core.Take()
+			var othersBefore map[string]string
+			if fdim != "" {
+				othersBefore = cw.regSnapOthers(pi)
+			}
 			mc := p.Unsubscribe(ca, sa)
 			c.Events(1)
-			removed := judgeResult(what+"/"+reason, pi, mc, takeAll(), verdict)
+			outs := takeAll()
+			if fdim != "" {
+				if how, detail := c08SnapDiff(othersBefore, cw.regSnapOthers(pi)); how != "" {
+					ok, bad, _ := rkResultOf(outs[pi], mc)
+					fail(what+"/"+fdim+"/"+how, "a subscription delete of peer %d (%s; answered with %d success and %d error results) changed the entries of another connection: %s", pi, fdesc, ok, bad, detail)
+					break // the narrow signature says it all
+				}
+			}
+			removed := judgeResult(what+"/"+reason, pi, mc, outs, verdict)
 			hist[len(hist)-1] += fmt.Sprintf(" -> removed=%v", removed)
+			if fdim != "" {
+				c08CountForeign(c, "unsubscribe", ftag, fdesc, verdict != "reject", oh >= 0, removed)
+			}
 			if removed {
 				delete(cw.subs, ent.key())
 				grants++
@@ -631,7 +864,10 @@ func c08Seq(c *rig.Ctx) {
 			}
 			judgeEvents(what, api.ElementChangeRemove, removed, pi, cliKey, srvKey)
 			judgeRegistry(what + "/" + reason)
-			c.Count("unsubscribe:"+reason, 1)
+			if fdim != "" {
+				probeFanout(what+"/"+fdim, srv)
+			}
+			c.Count("unsubscribe:"+strings.TrimPrefix(reason, ftag+":"), 1)
 			if omit != "" {
 				c.Count("unsubscribe:device-omitted"+omit, 1)
 			}
@@ -874,6 +1110,29 @@ var c08Model = porcupine.Model{
 			}
 			delete(set, i.Cli)
 			return true, c08SetEncode(set)
+		case "fsub":
+			// a request with a foreign device part whose numbers name the sender's own pair: the statement does not say whether
+			// it is served; if it is acknowledged it must have been the sender's own, absent pair that was entered
+			if !o.OK {
+				return true, s
+			}
+			set := c08SetDecode(s)
+			if set[i.Cli] {
+				return false, s
+			}
+			set[i.Cli] = true
+			return true, c08SetEncode(set)
+		case "funsub":
+			// ... and an acknowledged delete must have removed the sender's own, present pair
+			if !o.OK {
+				return true, s
+			}
+			set := c08SetDecode(s)
+			if !set[i.Cli] {
+				return false, s
+			}
+			delete(set, i.Cli)
+			return true, c08SetEncode(set)
 		case "publish", "snapshot":
 			return o.Set == s, s
 		}
@@ -891,6 +1150,7 @@ var c08Model = porcupine.Model{
 type c08Rec struct {
 	gor       int
 	in        c08In
+	foreign   string
 	srv       int
 	call, ret int64
 	peer      int
@@ -903,7 +1163,18 @@ func (r c08Rec) String() string {
 	if r.in.Op == "publish" {
 		return fmt.Sprintf("[%d,%d] g%d publish S%d %s", r.call, r.ret, r.gor, r.srv, rkToken(r.v))
 	}
-	return fmt.Sprintf("[%d,%d] g%d %s S%d %s", r.call, r.ret, r.gor, r.in.Op, r.srv, r.in.Cli)
+	return fmt.Sprintf("[%d,%d] g%d %s S%d %s%s", r.call, r.ret, r.gor, r.in.Op, r.srv, r.in.Cli, r.foreign)
+}
+
+func c08ForeignDims(desc string) string {
+	d := ""
+	if strings.Contains(desc, "client-device=") {
+		d += ":client-device"
+	}
+	if strings.Contains(desc, "server-device=") {
+		d += ":server-device"
+	}
+	return d
 }
 
 func c08Conc(c *rig.Ctx) {
@@ -944,11 +1215,23 @@ func c08Conc(c *rig.Ctx) {
 		}
 		c.Count("conc_cases_with_a_mute_first_subscriber", 1)
 	}
+	// in every third case a share of the requests carries a foreign device part, and a bystander peer (identical
+	// numbering, subscribed to every server feature, silent during the concurrent phase) is what most of them name
+	foreign := c.Index%3 == 0
+	var bystander *rig.Peer
+	if foreign {
+		bystander = w.AddPeer(3)
+		bystander.Ctr = 400000
+		bystander.Announce(rkAnnounceList(clients))
+		bystander.Tap.Take()
+		c.Count("conc_cases_with_foreign_device_requests", 1)
+	}
 	w.Core.Take()
 
 	type plan struct {
-		op       string
+		op       string // sub | unsub | fsub | funsub
 		cli, srv int
+		fc, fs   string // foreign device part of the client / server address ("" = the real one)
 	}
 	perPeer := 3 + r.Intn(c.Pick(1, 2))
 	plans := make([][]plan, 3)
@@ -959,11 +1242,22 @@ func c08Conc(c *rig.Ctx) {
 		p := w.Peers[pi]
 		f := clients[pl.cli]
 		rec := c08Rec{gor: gor, in: c08In{Op: pl.op, Cli: f.Key(p)}, srv: pl.srv, peer: pi}
+		ca, sa := f.Addr(p, true), srvF[pl.srv].Address()
+		if pl.fc != "" {
+			ca = rig.FA(pl.fc, f.Ent, f.Id)
+			rec.foreign += " client-device=" + pl.fc
+		}
+		if pl.fs != "" {
+			a := *sa
+			a.Device = util.Ptr(model.AddressDeviceType(pl.fs))
+			sa = &a
+			rec.foreign += " server-device=" + pl.fs
+		}
 		rec.call = rig.Seq()
-		if pl.op == "sub" {
-			rec.mc = p.Subscribe(f.Addr(p, true), srvF[pl.srv].Address(), model.FeatureTypeTypeDeviceClassification)
+		if pl.op == "sub" || pl.op == "fsub" {
+			rec.mc = p.Subscribe(ca, sa, model.FeatureTypeTypeDeviceClassification)
 		} else {
-			rec.mc = p.Unsubscribe(f.Addr(p, true), srvF[pl.srv].Address())
+			rec.mc = p.Unsubscribe(ca, sa)
 		}
 		rec.ret = rig.Seq()
 		record(rec)
@@ -971,15 +1265,54 @@ func c08Conc(c *rig.Ctx) {
 	// a sequential prefix so that publishes meet a non-empty registry
 	nClients := 1 + r.Intn(2)
 	for i := 0; i < r.Intn(4); i++ {
-		do(9, r.Intn(3), plan{"sub", r.Intn(nClients), r.Intn(nSrv)})
+		do(9, r.Intn(3), plan{op: "sub", cli: r.Intn(nClients), srv: r.Intn(nSrv)})
 	}
+	bystanderBefore := ""
+	bystanderSnap := func() string {
+		var es []string
+		for _, en := range w.Local.SubscriptionManager().Subscriptions(bystander.RD) {
+			es = append(es, fmt.Sprintf("#%d %s>%s", en.Id, rkFeatKey(en.ClientFeature), rkFeatKey(en.ServerFeature)))
+		}
+		sort.Strings(es)
+		return strings.Join(es, " ")
+	}
+	if foreign {
+		for si := 0; si < nSrv; si++ {
+			for ci := 0; ci < nClients; ci++ {
+				do(9, 3, plan{op: "sub", cli: ci, srv: si})
+			}
+		}
+		bystanderBefore = bystanderSnap()
+	}
+	nForeign := 0
 	for pi := range plans {
 		for k := 0; k < perPeer; k++ {
 			op := "sub"
 			if r.Intn(5) < 2 {
 				op = "unsub"
 			}
-			plans[pi] = append(plans[pi], plan{op, r.Intn(nClients), r.Intn(nSrv)})
+			pl := plan{op: op, cli: r.Intn(nClients), srv: r.Intn(nSrv)}
+			if foreign && r.Intn(5) < 2 {
+				pl.op = "f" + op
+				which := r.Intn(10)
+				if which < 8 { // client address: mostly the bystander's device, which holds every pair
+					switch d := r.Intn(10); {
+					case d < 6:
+						pl.fc = bystander.Addr
+					case d < 8:
+						pl.fc = w.Peers[(pi+1+r.Intn(2))%3].Addr
+					case d < 9:
+						pl.fc = rig.LocalAddr
+					default:
+						pl.fc = "nowhere"
+					}
+				}
+				if which >= 6 { // server address (6, 7: both)
+					pl.fs = []string{w.Peers[r.Intn(4)].Addr, "nowhere"}[r.Intn(2)]
+				}
+				nForeign++
+			}
+			plans[pi] = append(plans[pi], pl)
 		}
 	}
 	nPub := 2 + r.Intn(2)
@@ -1133,6 +1466,22 @@ func c08Conc(c *rig.Ctx) {
 			decided = false
 		}
 	}
+	if foreign {
+		c.Events(1)
+		c.Count("conc_foreign_device_requests", int64(nForeign))
+		if after := bystanderSnap(); after != bystanderBefore {
+			c.Violate("conc/foreign-device/entry-of-other-peer-changed", "the bystander peer 3 did nothing during the concurrent phase; its entries were {%s} before and are {%s} after it:\n  %s", bystanderBefore, after, strings.Join(hist, "\n  "))
+		}
+		for _, x := range recs {
+			if strings.HasPrefix(x.in.Op, "f") {
+				if results[x.peer][x.mc] == 1 {
+					c.Count("conc_foreign:"+x.in.Op+c08ForeignDims(x.foreign)+" -> accepted", 1)
+				} else {
+					c.Count("conc_foreign:"+x.in.Op+c08ForeignDims(x.foreign)+" -> refused", 1)
+				}
+			}
+		}
+	}
 	// Subscriptions(peer): distinct ids, own entries only
 	for pi, p := range w.Peers {
 		ids := map[uint64]bool{}
@@ -1159,7 +1508,7 @@ func c08Conc(c *rig.Ctx) {
 	var sh []string
 	for pi := range plans {
 		for _, pl := range plans[pi] {
-			sh = append(sh, fmt.Sprintf("%d:%s:%d:%d", pi, pl.op, pl.cli, pl.srv))
+			sh = append(sh, fmt.Sprintf("%d:%s:%d:%d:%v:%v", pi, pl.op, pl.cli, pl.srv, pl.fc != "", pl.fs != ""))
 		}
 	}
 	c.Shape(rkHash(append(sh, fmt.Sprint(nSrv, nPub, len(recs), mute != nil))...))
